@@ -35,8 +35,57 @@ var (
 
 func qual(p *types.Package) string { return p.Path() }
 
-func tstr(t types.Type) string {
+// deepUnalias resolves type aliases inside composite types too, so that one type has one name
+func deepUnalias(t types.Type) types.Type {
 	t = types.Unalias(t)
+	switch u := t.(type) {
+	case *types.Pointer:
+		if e := deepUnalias(u.Elem()); e != u.Elem() {
+			return types.NewPointer(e)
+		}
+	case *types.Slice:
+		if e := deepUnalias(u.Elem()); e != u.Elem() {
+			return types.NewSlice(e)
+		}
+	case *types.Array:
+		if e := deepUnalias(u.Elem()); e != u.Elem() {
+			return types.NewArray(e, u.Len())
+		}
+	case *types.Map:
+		k, e := deepUnalias(u.Key()), deepUnalias(u.Elem())
+		if k != u.Key() || e != u.Elem() {
+			return types.NewMap(k, e)
+		}
+	case *types.Chan:
+		if e := deepUnalias(u.Elem()); e != u.Elem() {
+			return types.NewChan(u.Dir(), e)
+		}
+	case *types.Tuple:
+		changed := false
+		vars := make([]*types.Var, u.Len())
+		for i := 0; i < u.Len(); i++ {
+			v := u.At(i)
+			nt := deepUnalias(v.Type())
+			if nt != v.Type() {
+				changed = true
+				v = types.NewVar(v.Pos(), v.Pkg(), v.Name(), nt)
+			}
+			vars[i] = v
+		}
+		if changed {
+			return types.NewTuple(vars...)
+		}
+	case *types.Signature:
+		p, r := deepUnalias(u.Params()), deepUnalias(u.Results())
+		if p != types.Type(u.Params()) || r != types.Type(u.Results()) {
+			return types.NewSignatureType(u.Recv(), nil, nil, p.(*types.Tuple), r.(*types.Tuple), u.Variadic())
+		}
+	}
+	return t
+}
+
+func tstr(t types.Type) string {
+	t = deepUnalias(t)
 	s := types.TypeString(t, qual)
 	if !typeSeen[s] {
 		typeSeen[s] = true
